@@ -16,7 +16,14 @@ sys.path.insert(0, os.path.join(HERE, "translators"))
 from common import cnat, clist, cpair, copt, cbool   # noqa: E402
 
 ID = "C03"
-DEPENDS = ["C02"]      # Proofs/C03_Link*.v relate the model to C02's sequential pointer/list models
+# Proofs/C03_Link*.v import C02's sequential models and proofs (C02_NEEDED).  They are NOT listed in
+# DEPENDS: that would put every C02 file -- also C02's own obligations over coq/Gen/C02_Gen.v,
+# which other people's runs on scratch trees rewrite -- into this property's build, and a C02
+# obligation failing for a C02 reason was seen to fail the C03 check (notes/C03.md).  The compiled
+# C02 libraries are used as they are; translators() fails closed if one is missing.
+C02_NEEDED = ["Lib/C02_Syntax", "Spec/C02_Spec", "Model/C02_Model", "Model/C02_PtrModel", "Model/C02_PtrCache",
+              "Proofs/C02_Lists", "Proofs/C02_Inv", "Proofs/C02_Refine", "Proofs/C02_PtrLemmas", "Proofs/C02_PtrRep",
+              "Proofs/C02_PtrSim"]
 IMPORTS = ("From Boltons Require Import Lib.Prelude Lib.C03_Syntax Lib.C03_Conc Model.C03_Model "
            "Spec.C03_Spec Gen.C03_Gen Check.C03_Check.")
 CASE_TYPE = "c03_case"
@@ -119,6 +126,11 @@ SELFTEST = {}
 def translators(repo):
     import c03_lock_ast
     import c03_selftest
+    import common
+    missing = [f for f in C02_NEEDED if not os.path.exists(os.path.join(common.COQ, f + ".vo"))]
+    if missing:
+        raise RuntimeError("C03's link theorems need C02's compiled libraries; not built: %s "
+                           "(run harness/vcheck.py --setup or the C02 check first)" % missing)
     # the extractor must reject every perturbation of the CURRENT source that breaks the lock
     # discipline (fail closed if it does not: a translator that accepts everything is worthless)
     rejected, total, failures = c03_selftest.run(repo)
